@@ -139,6 +139,11 @@ def compare_model(obs, ans):
 def shrink_stack(stack, still_fails):
     """drop layers one at a time while `still_fails(stack)` holds"""
     layers = list(refsem.flatten(stack))
+    try:
+        if not still_fails({'k': 'chain', 'flavour': 'chain', 'layers': layers}):
+            return stack          # fails only in this bracketing: keep it
+    except Exception:
+        return stack
     i = 0
     while i < len(layers) and len(layers) > 1:
         cand = layers[:i] + layers[i + 1:]
@@ -154,6 +159,19 @@ def shrink_stack(stack, still_fails):
         else:
             i += 1
     return {'k': 'chain', 'flavour': 'chain', 'layers': layers}
+
+
+def nest(rng, stack):
+    """a random bracketing of a flat stack (Chain / >> / LazyChain), or None"""
+    from .suite_alias import rand_tree, valid_tree, tree_desc
+    flat = refsem.flatten(stack)
+    if len(flat) < 3 or rng.random() < 0.5:
+        return None
+    for _ in range(6):
+        t = rand_tree(rng, 0, len(flat), flat)
+        if valid_tree(t, flat) and any(c[0] != 'leaf' for c in t[1]):
+            return tree_desc(t, flat)
+    return None
 
 
 def run_shard(args):
@@ -179,7 +197,17 @@ def run_shard(args):
             stats['kinds'][l['k']] = stats['kinds'].get(l['k'], 0) + 1
             stats['optional_marks'] += sum(1 for f in l.get('fields', {}).values() if f.get('opt'))
         try:
-            diffs, obs = compare(st)
+            # half of the stacks are built in a random bracketing / chain flavour (the semantics is that of the flat stack);
+            # a bracketing one of whose sub-chains does not construct on its own is not compared (reading 7.1 of DESIGN.md)
+            nested = nest(random.Random(seed * 7919 + stats['stacks']), st)
+            diffs, obs = compare(nested) if nested is not None else compare(st)
+            if nested is not None:
+                stats['nested'] = stats.get('nested', 0) + 1
+                if obs.get('construct_err') and not refsem.resolve(st).get('construct_err'):
+                    stats['nested_unbuildable'] = stats.get('nested_unbuildable', 0) + 1
+                    diffs, obs = compare(st)
+                elif diffs:
+                    st = nested
         except Exception as e:
             oracle_bad.append({'stack': st, 'diffs': [['harness', exc_name(e), str(e)[:300]]]})
             continue
